@@ -218,6 +218,39 @@ Proof.
 Qed.
 Print Assumptions dipole_rhs_triangle_rows_scale.
 
+(* ---- assembly level: block degrees of the head matrix of C10's assembly model (kernels as parameters) ------------ *)
+From OM Require Geom.Assembly Geom.AssemblyProofs Geom.ScaleAssembly.
+
+(* H(s) = s * D_s H D_s with D_s = diag(I_v, s I_t): from the kernel degrees (S_entry_scale: 3, D_entry_scale: 2, edge
+   products and areas: 2) through Details::HeadMatrix (S, N computed from the stored S values, D) and Details::deflate *)
+Theorem headmat_length_scale : forall (s : R) (pos pos' : N -> R * R * R) (area area' : N -> R)
+    (Sk Sk' : N -> N -> R) (Dk Dk' : N -> N -> nat -> R) (istri : N -> bool) (geo : Assembly.igeom R) (K : R),
+  s <> 0 ->
+  (forall t1 v1 t2 v2, Assembly.dot AssemblyProofs.RO (Assembly.CB AssemblyProofs.RO pos' t1 v1) (Assembly.CB AssemblyProofs.RO pos' t2 v2)
+                       = s * s * Assembly.dot AssemblyProofs.RO (Assembly.CB AssemblyProofs.RO pos t1 v1) (Assembly.CB AssemblyProofs.RO pos t2 v2)) ->
+  (forall t, area' t = s * s * area t) ->
+  (forall a b, Sk' a b = s * s * s * Sk a b) ->
+  (forall a b i, Dk' a b i = s * s * Dk a b i) ->
+  (forall k t, In t (Assembly.mtris (Assembly.gmesh geo k)) -> istri (Assembly.tix t) = true) ->
+  (forall v, istri (Assembly.vix geo v) = false) -> istri 0%N = false ->
+  forall r c, Assembly.mget AssemblyProofs.RO (Assembly.headmat AssemblyProofs.RO K pos' area' Sk' Dk' geo) r c
+              = s * ScaleAssembly.phi s istri r * ScaleAssembly.phi s istri c
+                * Assembly.mget AssemblyProofs.RO (Assembly.headmat AssemblyProofs.RO K pos area Sk Dk geo) r c.
+Proof. exact ScaleAssembly.headmat_length_scale. Qed.
+Print Assumptions headmat_length_scale.
+
+(* H(k) = k * E_k H E_k with E_k = diag(I_v, k^-1 I_t): pair coefficients sigma*k, sigma^-1/k, indicator unchanged *)
+Theorem headmat_sigma_scale : forall (k : R) (pos : N -> R * R * R) (area : N -> R)
+    (Sk : N -> N -> R) (Dk : N -> N -> nat -> R) (istri : N -> bool) (geo : Assembly.igeom R) (K : R),
+  k <> 0 ->
+  (forall j t, In t (Assembly.mtris (Assembly.gmesh geo j)) -> istri (Assembly.tix t) = true) ->
+  (forall v, istri (Assembly.vix geo v) = false) -> istri 0%N = false ->
+  forall r c, Assembly.mget AssemblyProofs.RO (Assembly.headmat AssemblyProofs.RO K pos area Sk Dk (ScaleAssembly.geo' (/ k) k 1 geo)) r c
+              = k * ScaleAssembly.phi (/ k) istri r * ScaleAssembly.phi (/ k) istri c
+                * Assembly.mget AssemblyProofs.RO (Assembly.headmat AssemblyProofs.RO K pos area Sk Dk geo) r c.
+Proof. exact ScaleAssembly.headmat_sigma_scale. Qed.
+Print Assumptions headmat_sigma_scale.
+
 (* ---- algebraic lift (MathComp): block degrees => gain laws --------------------------------------------------- *)
 Set Warnings "-notation-overridden,-ambiguous-paths,-notation-incompatible-format".
 From mathcomp Require Import all_ssreflect all_algebra.
